@@ -520,7 +520,7 @@ impl FarmGen {
             1 => p.create_farm_fee = Some(*[&coin(0, "uom"), &coin(1000, "uom"), &coin(500, "uusdt"), &coin(0, "uusdt")].choose(&mut self.rng).unwrap()).cloned(),
             2 => p.max_concurrent_farms = Some(f.cfg.max_concurrent_farms + self.rng.gen_range(0..2) - if self.rng.gen_range(0..6) == 0 { 1 } else { 0 }),
             3 => p.max_farm_epoch_buffer = Some(self.rng.gen_range(1..20)),
-            4 => p.farm_expiration_time = Some(*[2_629_746u64, 2_629_745, 3_000_000].choose(&mut self.rng).unwrap()),
+            4 => p.farm_expiration_time = Some(*[2_629_746u64, 2_629_745, 3_000_000, 10_000_000, 31_556_926].choose(&mut self.rng).unwrap()),
             5 => p.min_unlocking_duration = Some(*[86_400u64, 100_000, 40_000_000].choose(&mut self.rng).unwrap()),
             // nothing bounds the maximum from above (it only has to be >= the minimum)
             _ => p.max_unlocking_duration = Some(*[31_556_926u64, 20_000_000, 1, 40_000_000, 63_113_852, u64::MAX].choose(&mut self.rng).unwrap()),
